@@ -24,6 +24,15 @@ EXTENDS KernelOps, TLC
 
 CONSTANTS Programs,     \* sequence of programs (records), see harness/kernel.py
           StaleCache, CancelLeak,
+          ExitDeferred, \* BOOLEAN.  FALSE: the pinned code - stop(code) raises SystemExit where it is called, which
+                        \* abandons the batch when it comes from the dispatcher and is swallowed when it comes
+                        \* from a handler.  TRUE: intended algorithm - the code is remembered, the loop drains
+                        \* and dispatches `stopped`, run() raises SystemExit(code) at the end.
+          StepUntracked,   \* BOOLEAN: pinned tree - events fired from later generator steps are not tracked for complete (C05)
+          GenErrorHang,    \* BOOLEAN: pinned tree - a generator handler that raises in a later step never finishes its event (C06/C04)
+          SuccessNoErr,    \* BOOLEAN: pinned tree - the final _eventDone after a generator forgets that a handler raised (C04)
+          DetTasks,     \* BOOLEAN: tick() processes its task snapshot lowest generator first (history generation)
+                        \* instead of in every order (the real order is that of a Python set)
           KeepOut,      \* BOOLEAN: keep every emitted line in K.out (history generation) or only count them
           RunMonitor    \* BOOLEAN: feed emitted lines to the KernelOps monitor (off for history generation)
 
@@ -34,10 +43,18 @@ vars == <<K, hist>>
 Line(k) == [k |-> k, e |-> 0, h |-> 0, c |-> 0, n |-> "", ch |-> "", p |-> 0, o |-> 0,
             x |-> 0, y |-> 0, v |-> 0, f |-> 0, d |-> 0]
 
+Gen0 == [kind |-> "h", e |-> 0, h |-> 0, comp |-> 0, pc |-> 1, step |-> 0, lf |-> 0, final |-> FALSE, dead |-> FALSE,
+         caller |-> 0, iscall |-> FALSE, spec |-> [name |-> "", ch |-> "", prio |-> 0, flags |-> 0, on |-> 0, byname |-> FALSE],
+         name |-> "", ch |-> "", obj |-> 0, armed |-> FALSE, run |-> FALSE, wevent |-> 0, notified |-> FALSE]
+IsGenScript(ops) == \E i \in DOMAIN ops : ops[i][1] \in {"yield", "call", "wait"}
+
 MEv0 == [name |-> "", ch |-> "", prio |-> 0, flags |-> 0, cancelled |-> FALSE, stopped |-> FALSE,
          cause |-> 0, effects |-> 0, kind |-> 0, ref |-> 0, ca |-> 0, cb |-> 0,
          results |-> <<>>, errors |-> FALSE, ext |-> FALSE, tracked |-> FALSE,
-         firer |-> 0]          \* component whose fire() created the event (Value.manager)
+         firer |-> 0,          \* component whose fire() created the event (Value.manager)
+         wH |-> 0,             \* waitingHandlers: suspended generator handlers (and their call/wait sub-tasks)
+         promise |-> FALSE,    \* Value.promise: some handler returned a generator
+         alertdone |-> FALSE]  \* alert_done: a call()/wait() wants <name>_done
 
 K0(G) == [g        |-> G,
           par      |-> [c \in 1..Len(G.chan) |-> c],
@@ -51,16 +68,26 @@ K0(G) == [g        |-> G,
           tied     |-> FALSE,                              \* some pop had several minimal entries (order unspecified)
           flushing |-> 0,                                   \* root whose flush() is in progress
           ev       |-> <<>>,
-          handling |-> 0,
+          handling |-> 0,                                   \* _currently_handling (of the dispatching root)
+          handlingroot |-> 0,
           cur      |-> [e |-> 0, r |-> 0, todo |-> {}, err |-> FALSE],
           lastfired|-> 0,
+          inhandler|-> 0,                                   \* program handler whose script is executing
           extfired |-> <<>>,
           S        |-> S0(G),
           bad      |-> Bad0,
           out      |-> <<>>,
           nl       |-> 0,
           quiescing|-> FALSE,
-          done     |-> FALSE]
+          done     |-> FALSE,
+          gens     |-> <<>>,                                \* generator objects: handler generators and call/wait generators
+          tasks    |-> {},                                  \* _tasks: <<event, generator, parent generator, root>>
+          tasktodo |-> {},                                  \* snapshot being processed by tick()
+          ticking  |-> 0,                                   \* root whose tick() is in progress
+          tickstage|-> "",
+          running  |-> FALSE,                               \* Manager._running
+          run      |-> [phase |-> "off", r |-> 0, left |-> 0, exit |-> -1, raised |-> FALSE],   \* run() in progress
+          timeleft |-> 0]                                   \* generate_events._time_left of the one being dispatched
 
 RootK(Kx, c) == RootOf(Kx.par, c, Len(Kx.par))
 
@@ -95,12 +122,12 @@ ValueLines(Kx, e) ==
 
 (* Manager._fire + fireEvent *)
 FlagsOf(spec) == spec.flags
-DoFire(Kx, c, name, ch0, prio, flags, kind, ref, ca, cb, oe, oh, ext) ==
+DoFireT(Kx, c, name, ch0, prio, flags, kind, ref, ca, cb, oe, oh, ext, samethread) ==
   LET G    == Kx.g
       r    == RootK(Kx, c)
       eid  == Len(Kx.ev) + 1
       ch   == IF ch0 = "" THEN G.chan[c] ELSE ch0
-      trk  == Kx.handling # 0 /\ Kx.cur.r = r /\ Kx.ev[Kx.handling].cause # 0
+      trk  == samethread /\ Kx.handling # 0 /\ Kx.handlingroot = r /\ Kx.ev[Kx.handling].cause # 0
       rec  == [MEv0 EXCEPT !.name = name, !.ch = ch, !.prio = prio, !.flags = flags, !.kind = kind,
                            !.ref = ref, !.ca = ca, !.cb = cb, !.ext = ext, !.firer = c,
                            !.cause = IF trk THEN Kx.handling ELSE 0,
@@ -110,6 +137,9 @@ DoFire(Kx, c, name, ch0, prio, flags, kind, ref, ca, cb, oe, oh, ext) ==
       K2   == IF trk THEN [K1 EXCEPT !.ev[Kx.handling].effects = @ + 1] ELSE K1
   IN Emit(K2, << [Line("fire") EXCEPT !.e = eid, !.n = name, !.ch = ch, !.p = prio, !.c = r, !.o = oe, !.h = oh,
                                        !.f = flags, !.x = ref, !.y = kind, !.v = ca, !.d = cb] >>)
+
+DoFire(Kx, c, name, ch0, prio, flags, kind, ref, ca, cb, oe, oh, ext) ==
+  DoFireT(Kx, c, name, ch0, prio, flags, kind, ref, ca, cb, oe, oh, ext, TRUE)
 
 SuffixName(name, kind) ==
   CASE kind = 1 -> name \o "_success"
@@ -159,6 +189,17 @@ DoDetachK(Kx, c, oe) ==
        IN K2
 
 -----------------------------------------------------------------------------
+(* Manager.stop(code), code -1 = None.  Returns <<K, raises>>: with a code it raises SystemExit
+   in the calling thread after having stopped. *)
+DoStop(Kx, code, samethread) ==
+  IF ~Kx.running THEN <<Kx, FALSE>>
+  ELSE LET r  == Kx.run.r
+           K1 == [Kx EXCEPT !.running = FALSE]
+           K2 == DoFireT(K1, r, "stopped", "", 0, 0, 10, 0, 0, 0,
+                         IF samethread /\ Kx.cur.e # 0 /\ Kx.inhandler # 0 THEN Kx.cur.e ELSE 0,
+                         IF samethread THEN Kx.inhandler ELSE 0, FALSE, samethread)
+       IN <<K2, code # -1>>
+
 (* a handler's script, run atomically inside the dispatch of event e *)
 ScriptOf(G, h, name) ==
   LET sc == G.H[h].script
@@ -166,9 +207,10 @@ ScriptOf(G, h, name) ==
   IN IF hits = {} THEN <<>> ELSE sc[CHOOSE i \in hits : TRUE][2]
 
 RECURSIVE RunOps(_, _, _, _, _)
-(* returns <<K, value, raised>> *)
+(* returns <<K, value, outcome, code>>; outcome: "ok", "raise" (ScriptError), "exit" (SystemExit(code)
+   left the handler), "kbint" *)
 RunOps(Kx, e, h, ops, acc) ==
-  IF ops = <<>> THEN <<Kx, acc, FALSE>>
+  IF ops = <<>> THEN <<Kx, acc, "ok", -1>>
   ELSE LET op == Head(ops)
            c  == Kx.g.H[h].comp
            opl(n) == [Line("op") EXCEPT !.e = e, !.h = h, !.n = n]
@@ -184,7 +226,21 @@ RunOps(Kx, e, h, ops, acc) ==
             [] op[1] = "stop" ->
                  RunOps(Emit([Kx EXCEPT !.ev[e].stopped = TRUE], <<opl("stop")>>), e, h, Tail(ops), acc)
             [] op[1] = "ret" -> RunOps(Kx, e, h, Tail(ops), op[2])
-            [] op[1] = "raise" -> <<Emit(Kx, <<opl("raise")>>), 0, TRUE>>
+            [] op[1] = "raise" -> <<Emit(Kx, <<opl("raise")>>), 0, "raise", -1>>
+            [] op[1] = "exit" -> <<Emit(Kx, << [opl("exit") EXCEPT !.x = op[2]] >>), 0, "exit", op[2]>>
+            [] op[1] = "kbint" -> <<Emit(Kx, <<opl("kbint")>>), 0, "kbint", -1>>
+            [] op[1] = "stopmgr" ->
+                 LET K1 == Emit(Kx, << [opl("stopmgr") EXCEPT !.x = op[2]] >>)
+                     st == DoStop(K1, op[2], TRUE)
+                 IN IF ExitDeferred
+                    THEN RunOps([st[1] EXCEPT !.run.exit = IF @ = -1 /\ Kx.running THEN op[2] ELSE @], e, h, Tail(ops), acc)
+                    ELSE IF st[2] THEN <<st[1], 0, "exit", op[2]>>     \* stop(code) raised SystemExit(code)
+                    ELSE RunOps(st[1], e, h, Tail(ops), acc)
+            [] op[1] = "stop2" ->
+                 LET K1 == Emit(Kx, << [opl("stop2") EXCEPT !.x = op[2]] >>)
+                     st == DoStop(K1, op[2], FALSE)          \* in another thread: its SystemExit stays there
+                 IN RunOps(IF ExitDeferred THEN [st[1] EXCEPT !.run.exit = IF @ = -1 /\ Kx.running THEN op[2] ELSE @] ELSE st[1],
+                           e, h, Tail(ops), acc)
             [] op[1] = "addh" -> RunOps(DoAddHandler(Kx, op[2], e, h, TRUE), e, h, Tail(ops), acc)
             [] op[1] = "rmh" -> RunOps(DoRemoveHandler(Kx, op[2], e, h, TRUE), e, h, Tail(ops), acc)
             [] op[1] = "reg" -> RunOps(DoRegister(Kx, op[2], op[3], e, h, TRUE), e, h, Tail(ops), acc)
@@ -193,32 +249,175 @@ RunOps(Kx, e, h, ops, acc) ==
 
 -----------------------------------------------------------------------------
 (* Manager._eventDone: success, then complete detection by cause/effects *)
-RECURSIVE CompleteChain(_, _)
-CompleteChain(Kx, e) ==
+RECURSIVE CompleteChainR(_, _, _)
+CompleteChain(Kx, e) == CompleteChainR(Kx, e, Kx.cur.r)
+CompleteChainR(Kx, e, root) ==
   IF Kx.ev[e].cause = 0 THEN Kx
   ELSE LET K1 == [Kx EXCEPT !.ev[e].effects = @ - 1]
        IN IF K1.ev[e].effects > 0 THEN K1
           ELSE LET cause == K1.ev[e].cause
                    K2 == IF (K1.ev[e].flags \div 4) % 2 = 1
-                         THEN DoFire(K1, K1.cur.r, SuffixName(K1.ev[e].name, 3),
+                         THEN DoFire(K1, root, SuffixName(K1.ev[e].name, 3),
                                      IF K1.ev[e].kind = 9 THEN K1.g.inst[K1.ev[e].ca] ELSE K1.ev[e].ch,
                                      0, 0, 3, e, 0, 0, 0, 0, FALSE)
                          ELSE K1
                    K3 == [K2 EXCEPT !.ev[e].cause = 0, !.ev[e].effects = 0]
-               IN IF cause = e THEN K3 ELSE CompleteChain(K3, cause)
+               IN IF cause = e THEN K3 ELSE CompleteChainR(K3, cause, root)
 
-EventDone(Kx, e, err) ==
-  LET K1 == IF ~err /\ Kx.ev[e].flags % 2 = 1
-            THEN DoFire(Kx, Kx.cur.r, SuffixName(Kx.ev[e].name, 1), Kx.ev[e].ch, 0, 0, 1, e, 0, 0, 0, 0, FALSE)
-            ELSE Kx
-  IN CompleteChain(K1, e)
+EventDoneR(Kx, e, err, root) ==
+  IF Kx.ev[e].wH > 0 THEN Kx
+  ELSE
+  LET K0_ == IF Kx.ev[e].alertdone      \* <name>_done, for waitEvent's _on_done
+             THEN DoFire(Kx, root, Kx.ev[e].name \o "_done", Kx.ev[e].ch, 0, 0, 4, e, 0, 0, 0, 0, FALSE)
+             ELSE Kx
+      K1 == IF ~err /\ Kx.ev[e].flags % 2 = 1
+            THEN DoFire(K0_, root, SuffixName(Kx.ev[e].name, 1), Kx.ev[e].ch, 0, 0, 1, e, 0, 0, 0, 0, FALSE)
+            ELSE K0_
+  IN CompleteChainR(K1, e, root)
+EventDone(Kx, e, err) == EventDoneR(Kx, e, err, Kx.cur.r)
+
+-----------------------------------------------------------------------------
+(* Value.setValue -> inform(): with notify set, every stored result announces itself
+   with <name>_value_changed, fired by the component that fired the event, on its own
+   instance channel *)
+ForceInform(Kx, e) ==
+  IF (Kx.ev[e].flags \div 8) % 2 = 1
+  THEN DoFire(Kx, Kx.ev[e].firer, SuffixName(Kx.ev[e].name, 6), Kx.g.inst[Kx.ev[e].firer], 0, 0, 6, e, 0, 0, 0, 0, FALSE)
+  ELSE Kx
+Inform(Kx, e) ==
+  IF (Kx.ev[e].flags \div 8) % 2 = 1 /\ ~Kx.ev[e].promise
+  THEN DoFire(Kx, Kx.ev[e].firer, SuffixName(Kx.ev[e].name, 6), Kx.g.inst[Kx.ev[e].firer], 0, 0, 6, e, 0, 0, 0, 0, FALSE)
+  ELSE Kx
+
+-----------------------------------------------------------------------------
+(* generator handlers, call() and wait() : Manager.processTask, waitEvent, callEvent *)
+WaitMatches(Kx, w, e, r) ==
+  LET W  == Kx.gens[w]
+      hc == IF W.ch = "" THEN Kx.g.chan[W.comp] ELSE W.ch
+      ec == Kx.ev[e].ch
+  IN /\ W.kind = "w" /\ W.armed /\ RootK(Kx, W.comp) = r
+     /\ (ec = "*" \/ hc = "*" \/ hc = ec \/ ec = Kx.g.inst[W.comp])
+
+(* the temporary handlers of pending waits that this dispatch reaches: _on_event marks the
+   event (alert_done) and remembers it; _on_done (for <name>_done) schedules the wait generator *)
+Awake(Kx, e, r) ==
+  LET evs == { w \in DOMAIN Kx.gens : WaitMatches(Kx, w, e, r) /\ ~Kx.gens[w].run /\ Kx.gens[w].name = Kx.ev[e].name
+                                      /\ (Kx.gens[w].obj = 0 \/ Kx.gens[w].obj = e) }
+      dns == IF Kx.ev[e].kind # 4 THEN {}
+             ELSE { w \in DOMAIN Kx.gens : WaitMatches(Kx, w, e, r) /\ Kx.gens[w].run /\ ~Kx.gens[w].notified
+                                            /\ Kx.gens[w].wevent = Kx.ev[e].ref }
+  IN [Kx EXCEPT !.gens = Force([w \in DOMAIN Kx.gens |->
+                           IF w \in evs THEN [Kx.gens[w] EXCEPT !.run = TRUE, !.wevent = e]
+                           ELSE IF w \in dns THEN [Kx.gens[w] EXCEPT !.notified = TRUE]
+                           ELSE Kx.gens[w]]),
+                !.ev[e].alertdone = @ \/ evs # {},
+                !.refresh[r] = @ \/ evs # {},
+                !.tasks = @ \cup { <<Kx.gens[w].e, w, Kx.gens[w].caller, r>> : w \in dns }]
+
+GenScript(Kx, g) == ScriptOf(Kx.g, Kx.gens[g].h, Kx.ev[Kx.gens[g].e].name)
+RECURSIVE SuspIdx(_, _)
+SuspIdx(ops, j) == IF j > Len(ops) THEN 0
+                   ELSE IF ops[j][1] \in {"yield", "call", "wait"} THEN j ELSE SuspIdx(ops, j + 1)
+
+(* advance a handler generator by one step (next / send): <<K, kind, value>>,
+   kind: "value" (yielded a plain value, 0 = None), "gen" (yielded a call/wait generator, value = its id),
+         "stop" (StopIteration), "raise" *)
+StepGen(Kx, g) ==
+  LET Gn  == Kx.gens[g]
+      e   == Gn.e
+      h   == Gn.h
+      ops == GenScript(Kx, g)
+      stepl(d) == [Line("step") EXCEPT !.e = e, !.h = h, !.d = d]
+  IN IF Gn.dead THEN <<Kx, "stop", 0>>
+     ELSE IF Gn.final
+     THEN <<Emit([Kx EXCEPT !.gens[g].dead = TRUE], <<stepl(Gn.step + 1), [Line("gend") EXCEPT !.e = e, !.h = h]>>), "stop", 0>>
+     ELSE
+     LET j   == SuspIdx(ops, Gn.pc)
+         seg == IF j = 0 THEN SubSeq(ops, Gn.pc, Len(ops)) ELSE SubSeq(ops, Gn.pc, j - 1)
+         K1  == Emit([Kx EXCEPT !.gens[g].step = @ + 1], <<stepl(Gn.step + 1)>>)
+         r   == RunOps([K1 EXCEPT !.inhandler = h, !.lastfired = Gn.lf], e, h, seg, 0)
+         K2  == [r[1] EXCEPT !.inhandler = 0, !.gens[g].lf = r[1].lastfired]
+     IN IF r[3] = "raise"
+        THEN <<Emit([K2 EXCEPT !.gens[g].dead = TRUE], << [Line("gend") EXCEPT !.e = e, !.h = h, !.f = 1] >>), "raise", 0>>
+        ELSE IF j = 0
+        THEN IF r[2] # 0
+             THEN <<Emit([K2 EXCEPT !.gens[g].final = TRUE, !.gens[g].pc = Len(ops) + 1],
+                         << [Line("yld") EXCEPT !.e = e, !.h = h, !.v = r[2]] >>), "value", r[2]>>
+             ELSE <<Emit([K2 EXCEPT !.gens[g].dead = TRUE], << [Line("gend") EXCEPT !.e = e, !.h = h] >>), "stop", 0>>
+        ELSE LET op == ops[j] IN
+             IF op[1] = "yield"
+             THEN <<Emit([K2 EXCEPT !.gens[g].pc = j + 1], << [Line("yld") EXCEPT !.e = e, !.h = h, !.v = op[2]] >>),
+                    "value", op[2]>>
+             ELSE LET w  == Len(K2.gens) + 1
+                      sp == op[2]
+                      iscall == op[1] = "call"
+                      obj == IF iscall \/ sp.byname THEN 0 ELSE K2.gens[g].lf
+                      rec == [Gen0 EXCEPT !.kind = "w", !.e = e, !.h = h, !.caller = g,
+                                          !.comp = IF iscall /\ sp.on # 0 THEN sp.on ELSE Gn.comp,
+                                          !.iscall = iscall, !.spec = sp, !.name = sp.name, !.obj = obj,
+                                          !.ch = IF iscall THEN "" ELSE IF obj # 0 THEN K2.ev[obj].ch ELSE sp.ch]
+                  IN <<Emit([K2 EXCEPT !.gens = Append(@, rec), !.gens[g].pc = j + 1],
+                            << [Line("yld") EXCEPT !.e = e, !.h = h, !.f = 1, !.x = obj,
+                                                   !.n = IF iscall THEN "call" ELSE "wait", !.d = -1] >>), "gen", w>>
+
+(* first step of a call/wait generator: callEvent fires the event; waitEvent installs its handlers *)
+StartWait(Kx, w, root) ==
+  LET W == Kx.gens[w] IN
+  IF W.iscall
+  THEN LET e2 == Len(Kx.ev) + 1
+           K1 == DoFire(Kx, W.comp, W.spec.name, W.spec.ch, W.spec.prio, W.spec.flags, 0, 0, 0, 0, 0, 0, FALSE)
+       IN [K1 EXCEPT !.gens[w].obj = e2, !.gens[w].ch = K1.ev[e2].ch, !.gens[w].armed = TRUE, !.refresh[root] = TRUE]
+  ELSE [Kx EXCEPT !.gens[w].armed = TRUE, !.refresh[root] = TRUE]
+
+AddResult(Kx, e, v) == IF v # 0 THEN [Kx EXCEPT !.ev[e].results = Append(@, v)] ELSE Kx
+
+(* processTask's `except BaseException` branch *)
+TaskError(Kx, e, root, dec) ==
+  LET K1 == [Kx EXCEPT !.ev[e].results = Append(@, -1), !.ev[e].errors = TRUE]
+      K2 == ForceInform(K1, e)
+      K3 == IF (K2.ev[e].flags \div 2) % 2 = 1
+            THEN DoFire(K2, root, SuffixName(K2.ev[e].name, 2), K2.ev[e].ch, 0, 0, 2, e, 0, 0, 0, 0, FALSE)
+            ELSE K2
+      K4 == DoFire(K3, root, "exception", "", 0, 0, 5, e, 0, 0, 0, 0, FALSE)
+      K5 == IF GenErrorHang THEN K4 ELSE [K4 EXCEPT !.ev[e].wH = @ - dec]
+  IN IF GenErrorHang THEN [K4 EXCEPT !.handling = 0]
+     ELSE IF K5.ev[e].wH = 0 THEN EventDoneR([K5 EXCEPT !.handling = 0], e, TRUE, root) ELSE K5
+
+ProcessTask(Kx, t) ==
+  LET e    == t[1]
+      g    == t[2]
+      par  == t[3]
+      root == t[4]
+      Kh   == IF StepUntracked THEN Kx ELSE [Kx EXCEPT !.handling = e, !.handlingroot = root]      \* _stepTask
+  IN IF Kx.gens[g].kind = "h"
+     THEN LET s == StepGen(Kh, g) IN
+          CASE s[2] = "value" -> [AddResult(s[1], e, s[3]) EXCEPT !.handling = 0]
+            [] s[2] = "gen"   -> [StartWait([s[1] EXCEPT !.ev[e].wH = @ + 1, !.tasks = @ \ {t}], s[3], root) EXCEPT !.handling = 0]
+            [] s[2] = "stop"  ->
+                 LET K1 == [s[1] EXCEPT !.ev[e].wH = @ - 1, !.tasks = @ \ {t}, !.handling = 0]
+                 IN IF K1.ev[e].wH = 0 THEN EventDoneR(ForceInform(K1, e), e, IF SuccessNoErr THEN FALSE ELSE K1.ev[e].errors, root)
+                    ELSE K1
+            [] OTHER -> TaskError([s[1] EXCEPT !.tasks = @ \ {t}], e, root, 1)
+     ELSE \* a call/wait generator whose event is done: it hands the result to the caller (CallValue -> send)
+          LET W  == Kx.gens[g]
+              cg == W.caller
+              K1 == [Kh EXCEPT !.tasks = @ \ {t}, !.gens[g].armed = FALSE, !.gens[g].dead = TRUE, !.refresh[root] = TRUE]
+              K2 == Emit(K1, << [Line("resume") EXCEPT !.e = W.e, !.h = W.h, !.x = W.wevent,
+                                                        !.v = ValId(K1.ev[W.wevent].results),
+                                                        !.f = IF K1.ev[W.wevent].errors THEN 1 ELSE 0] >>)
+              s  == StepGen(K2, cg)
+          IN CASE s[2] = "gen"   -> [StartWait(s[1], s[3], root) EXCEPT !.handling = 0]
+               [] s[2] = "value" -> [AddResult(s[1], e, s[3]) EXCEPT !.ev[e].wH = @ - 1, !.tasks = @ \cup {<<e, cg, 0, root>>},
+                                                                     !.handling = 0]
+               [] s[2] = "stop"  -> [s[1] EXCEPT !.ev[e].wH = @ - 1, !.tasks = @ \cup {<<e, cg, 0, root>>}, !.handling = 0]
+               [] OTHER -> TaskError(s[1], e, root, 2)
 
 -----------------------------------------------------------------------------
 (* environment *)
 G == K.g
 NOps == Len(hist)
 LastOp == IF hist = <<>> THEN "" ELSE hist[Len(hist)][1]
-Idle == K.cur.e = 0 /\ K.flushing = 0
+Idle == K.cur.e = 0 /\ K.flushing = 0 /\ K.run.phase = "off" /\ K.ticking = 0
 CanOp(kind) == Idle /\ ~K.quiescing /\ NOps < G.maxops /\ kind \in Range(G.ops)
               /\ (NOps >= Len(G.pre))           \* the forced prefix comes first
 
@@ -226,7 +425,15 @@ Forced == Idle /\ ~K.quiescing /\ NOps < Len(G.pre)
 
 (* the driver's final quiesce(): tick the lowest root that has something queued
    until nothing is queued anywhere, then project structure and values *)
-BusyRoots == { c \in DOMAIN K.par : K.par[c] = c /\ K.queue[c] # <<>> }
+BusyRoots == { c \in DOMAIN K.par : K.par[c] = c /\ (K.queue[c] # <<>> \/ K.pq[c] # {} \/ \E t \in K.tasks : t[4] = c) }
+(* tick(): first every registered task (a snapshot, in no particular order), then - for a running
+   manager - generate_events, then one flush *)
+TickBegin(Kx, r) == [Kx EXCEPT !.ticking = r, !.tickstage = "tasks", !.tasktodo = { t \in Kx.tasks : t[4] = r }]
+(* dispatchEvents: a new snapshot only when the previous batch is exhausted (it is not when a
+   SystemExit left the dispatcher in the middle of it) *)
+StartPass(Kx, r) ==
+  IF Kx.pq[r] # {} THEN [Kx EXCEPT !.flushing = r]
+  ELSE [Kx EXCEPT !.flushing = r, !.pq[r] = Range(Kx.queue[r]), !.queue[r] = <<>>]
 StartQuiesce ==
   /\ Idle /\ ~K.quiescing /\ NOps >= Len(G.pre)
   /\ hist' = Append(hist, <<"quiesce", 0, 0, 0>>)
@@ -235,12 +442,15 @@ QTick ==
   /\ K.quiescing /\ Idle /\ ~K.done /\ BusyRoots # {}
   /\ UNCHANGED hist
   /\ LET r == CHOOSE c \in BusyRoots : \A c2 \in BusyRoots : c <= c2
-     IN K' = [Emit(K, << [Line("api") EXCEPT !.n = "tick", !.c = r] >>)
-                EXCEPT !.flushing = r, !.pq[r] = Range(K.queue[r]), !.queue[r] = <<>>]
+     IN K' = TickBegin(Emit(K, << [Line("api") EXCEPT !.n = "tick", !.c = r] >>), r)
 QDone ==
   /\ K.quiescing /\ Idle /\ ~K.done /\ BusyRoots = {}
   /\ UNCHANGED hist
-  /\ K' = [Emit(K, ProjLines(K) \o ValueLines(K, 1) \o << Line("quiet") >>) EXCEPT !.done = TRUE]
+  /\ K' = [Emit(K, ProjLines(K) \o ValueLines(K, 1) \o
+                    << [Line("quiet") EXCEPT !.v = Cardinality(K.tasks),
+                                             !.x = Cardinality({w \in DOMAIN K.gens : K.gens[w].kind = "w" /\ K.gens[w].armed /\ ~K.gens[w].run})
+                                                   + Cardinality({w \in DOMAIN K.gens : K.gens[w].kind = "w" /\ K.gens[w].armed})] >>)
+             EXCEPT !.done = TRUE]
 
 ExtFire(c, i) ==
   /\ hist' = Append(hist, <<"fire", c, i, 0>>)
@@ -279,10 +489,70 @@ ExtRmH(h) ==
 (* flush() on any component delegates to its root: one pass *)
 ExtFlush(c) ==
   /\ LET r == RootK(K, c) IN
-     /\ K.queue[r] # <<>>
+     /\ (K.queue[r] # <<>> \/ K.pq[r] # {})
      /\ hist' = Append(hist, <<"flush", c, 0, 0>>)
-     /\ K' = [Emit(K, << [Line("api") EXCEPT !.n = "flush", !.c = c] >>)
-                EXCEPT !.flushing = r, !.pq[r] = Range(K.queue[r]), !.queue[r] = <<>>]
+     /\ K' = StartPass(Emit(K, << [Line("api") EXCEPT !.n = "flush", !.c = c] >>), r)
+
+(* run(): `started`, then tick() while running or something is queued, three more ticks, and a
+   last one in the finally clause; a SystemExit that left the dispatcher skips to that last one *)
+ExtRun(c) ==
+  /\ K.par[c] = c /\ ~K.running
+  /\ hist' = Append(hist, <<"run", c, 0, 0>>)
+  /\ LET K1 == Emit(K, << [Line("api") EXCEPT !.n = "run", !.c = c] >>)
+         K2 == [K1 EXCEPT !.running = TRUE, !.run = [phase |-> "loop", r |-> c, left |-> 0, exit |-> -1, raised |-> FALSE]]
+     IN K' = DoFireT(K2, c, "started", "", 0, 0, 10, 0, 0, 0, 0, 0, FALSE, TRUE)
+
+ExtStop(c) ==
+  /\ ~K.running
+  /\ hist' = Append(hist, <<"stop", c, 0, 0>>)
+  /\ K' = Emit(K, << [Line("api") EXCEPT !.n = "stop", !.c = c, !.x = -1] >>)
+
+RunIdle == K.run.phase # "off" /\ K.cur.e = 0 /\ K.flushing = 0 /\ K.ticking = 0
+QLen(Kx, r) == Len(Kx.queue[r]) + Cardinality(Kx.pq[r])
+
+(* one tick() of the run loop *)
+DoTick(Kx) == TickBegin(Kx, Kx.run.r)
+
+StepTask ==
+  /\ K.ticking # 0 /\ K.tickstage = "tasks" /\ K.tasktodo # {} /\ K.cur.e = 0 /\ K.flushing = 0
+  /\ UNCHANGED hist
+  /\ \E t \in K.tasktodo :
+       /\ DetTasks => \A t2 \in K.tasktodo : t[2] <= t2[2]
+       /\ K' = ProcessTask([K EXCEPT !.tasktodo = @ \ {t}, !.tied = @ \/ Cardinality(K.tasktodo) > 1], t)
+
+TickFlush ==
+  /\ K.ticking # 0 /\ K.tickstage = "tasks" /\ K.tasktodo = {} /\ K.cur.e = 0 /\ K.flushing = 0
+  /\ UNCHANGED hist
+  /\ LET r  == K.ticking
+         K1 == IF K.running /\ K.run.r = r
+               THEN DoFireT(K, r, "generate_events", "*", 0, 0, 10, 0, 0, 0, 0, 0, FALSE, TRUE)
+               ELSE K
+     IN IF QLen(K1, r) > 0 THEN K' = [StartPass(K1, r) EXCEPT !.tickstage = "flush"]
+        ELSE K' = [K1 EXCEPT !.ticking = 0, !.tickstage = ""]
+
+ExtTick(c) ==
+  /\ LET r == RootK(K, c) IN
+     /\ hist' = Append(hist, <<"tick", c, 0, 0>>)
+     /\ K' = TickBegin(Emit(K, << [Line("api") EXCEPT !.n = "tick", !.c = c] >>), r)
+
+RunStep ==
+  /\ RunIdle
+  /\ UNCHANGED hist
+  /\ LET r == K.run.r IN
+     CASE K.run.phase = "loop" ->
+            IF K.running \/ QLen(K, r) > 0 THEN K' = DoTick(K)
+            ELSE K' = [K EXCEPT !.run.phase = "fade", !.run.left = 3]
+       [] K.run.phase = "fade" ->
+            IF K.run.left > 0 THEN K' = [DoTick(K) EXCEPT !.run.left = K.run.left - 1]
+            ELSE K' = [K EXCEPT !.run.phase = "final", !.run.left = 1]
+       [] K.run.phase = "final" ->
+            IF K.run.left > 0 THEN K' = [DoTick(K) EXCEPT !.run.left = 0]
+            ELSE K' = [Emit(K, << [Line("runret") EXCEPT !.c = r,
+                                                          !.x = IF K.run.raised \/ (ExitDeferred /\ K.run.exit # -1) THEN 1 ELSE 0,
+                                                          !.v = IF K.run.raised \/ ExitDeferred THEN K.run.exit ELSE -1,
+                                                          !.d = QLen(K, r), !.f = IF K.running THEN 1 ELSE 0,
+                                                          !.y = IF K.run.raised THEN 1 ELSE 0] >>)
+                         EXCEPT !.run.phase = "off"]
 
 DoExt(op) ==
   CASE op[1] = "fire"   -> ExtFire(op[2], op[3])
@@ -292,6 +562,9 @@ DoExt(op) ==
     [] op[1] = "addh"   -> ExtAddH(op[2])
     [] op[1] = "rmh"    -> ExtRmH(op[2])
     [] op[1] = "flush"  -> ExtFlush(op[2])
+    [] op[1] = "run"    -> ExtRun(op[2])
+    [] op[1] = "tick"   -> ExtTick(op[2])
+    [] op[1] = "stop"   -> ExtStop(op[2])
 
 -----------------------------------------------------------------------------
 (* system: the pass in progress *)
@@ -324,19 +597,28 @@ BeginDispatch ==
         ELSE LET hs == HandlersFor(K, r, e)
                  K2 == [K1 EXCEPT !.cache[r] = (IF K.refresh[r] THEN {} ELSE @) \cup {<<K.ev[e].name, K.ev[e].ch, hs>>},
                                   !.refresh[r] = FALSE,
-                                  !.handling = e,
+                                  !.handling = e, !.handlingroot = r,
                                   !.cur = [e |-> e, r |-> r, todo |-> hs, err |-> FALSE],
                                   !.ev[e].cause = IF (K.ev[e].flags \div 4) % 2 = 1 /\ K.ev[e].cause = 0 THEN e ELSE @,
                                   !.ev[e].effects = IF (K.ev[e].flags \div 4) % 2 = 1 THEN 1 ELSE @]
-             IN K' = K2
+                 K2w == Awake(K2, e, r)
+             IN K' = IF K.ev[e].name = "generate_events"
+                     THEN [K2 EXCEPT !.timeleft = IF Cardinality(K0_.pq[r]) > 0 \/ K.queue[r] # <<>> \/ ~K.running
+                                                  THEN 0 ELSE -1]
+                     ELSE K2w
 
-(* Value.setValue -> inform(): with notify set, every stored result announces itself
-   with <name>_value_changed, fired by the component that fired the event, on its own
-   instance channel *)
-Inform(Kx, e) ==
-  IF (Kx.ev[e].flags \div 8) % 2 = 1
-  THEN DoFire(Kx, Kx.ev[e].firer, SuffixName(Kx.ev[e].name, 6), Kx.g.inst[Kx.ev[e].firer], 0, 0, 6, e, 0, 0, 0, 0, FALSE)
-  ELSE Kx
+(* FallBackGenerator._on_generate_events, appended after all other handlers: with time left it
+   idles; the harness's virtual wait logs the idle wait and has a second thread stop the manager *)
+IsGE == K.cur.e # 0 /\ K.ev[K.cur.e].name = "generate_events"
+Fallback ==
+  /\ IsGE /\ K.cur.todo = {} /\ ~K.ev[K.cur.e].stopped
+  /\ UNCHANGED hist
+  /\ LET e == K.cur.e IN
+     IF K.timeleft = 0 THEN K' = [K EXCEPT !.ev[e].stopped = TRUE]
+     ELSE LET K1 == Emit(K, << [Line("idle") EXCEPT !.d = 1, !.x = 999999] >>)
+              K2 == Emit(K1, << [Line("api") EXCEPT !.n = "stop", !.c = K.run.r, !.x = -1, !.y = 1] >>)
+              st == DoStop(K2, -1, FALSE)
+          IN K' = [st[1] EXCEPT !.ev[e].stopped = TRUE, !.timeleft = 0]
 
 (* one handler of the event in progress, highest priority first; among equal
    priorities the lowest id (DetOrder) or any *)
@@ -354,21 +636,45 @@ Invoke(h) ==
   /\ LET e  == K.cur.e
          K1 == Emit([K EXCEPT !.cur.todo = @ \ {h}],
                     << [Line("inv") EXCEPT !.e = e, !.h = h, !.c = G.H[h].comp, !.n = K.ev[e].name] >>)
-         r  == RunOps(K1, e, h, ScriptOf(G, h, K.ev[e].name), 0)
-         K2 == r[1]
-     IN IF r[3]   \* raised
-        THEN LET K3 == Emit(K2, << [Line("ret") EXCEPT !.e = e, !.h = h, !.f = 1, !.v = -1] >>)
+         isgen == IsGenScript(ScriptOf(G, h, K.ev[e].name))
+         r  == IF isgen THEN <<K1, 0, "gen", -1>>
+               ELSE RunOps([K1 EXCEPT !.inhandler = h, !.lastfired = 0], e, h, ScriptOf(G, h, K.ev[e].name), 0)
+         K2 == [r[1] EXCEPT !.inhandler = 0]
+     IN CASE r[3] = "gen" ->
+             \* the handler returned a generator: nothing of its body has run yet
+             LET g  == Len(K2.gens) + 1
+                 K3 == Emit(K2, << [Line("ret") EXCEPT !.e = e, !.h = h, !.f = 2] >>)
+             IN K' = [K3 EXCEPT !.gens = Append(@, [Gen0 EXCEPT !.kind = "h", !.e = e, !.h = h, !.comp = G.H[h].comp]),
+                                !.ev[e].wH = @ + 1, !.ev[e].promise = TRUE,
+                                !.tasks = @ \cup {<<e, g, 0, K.cur.r>>}]
+          [] r[3] = "raise" ->
+             LET K3 == Emit(K2, << [Line("ret") EXCEPT !.e = e, !.h = h, !.f = 1, !.v = -1] >>)
                  K4 == [K3 EXCEPT !.ev[e].results = Append(@, -1), !.ev[e].errors = TRUE, !.cur.err = TRUE]
                  K5 == IF (K4.ev[e].flags \div 2) % 2 = 1
                        THEN DoFire(K4, K4.cur.r, SuffixName(K4.ev[e].name, 2), K4.ev[e].ch, 0, 0, 2, e, 0, 0, 0, 0, FALSE)
                        ELSE K4
              IN K' = Inform(DoFire(K5, K5.cur.r, "exception", "", 0, 0, 5, e, 0, 0, 0, 0, FALSE), e)
-        ELSE LET K3 == Emit(K2, << [Line("ret") EXCEPT !.e = e, !.h = h, !.v = r[2]] >>)
+          [] r[3] \in {"exit", "kbint"} ->
+             \* _dispatcher: except SystemExit as e: self.stop(e.code) / except KeyboardInterrupt: self.stop()
+             LET K3 == Emit(K2, << [Line("ret") EXCEPT !.e = e, !.h = h, !.f = 1, !.v = -1,
+                                                        !.x = IF r[3] = "exit" THEN 1 ELSE 2] >>)
+                 st == DoStop(K3, r[4], TRUE)
+             IN IF ExitDeferred
+                THEN K' = [st[1] EXCEPT !.run.exit = IF @ = -1 /\ K3.running THEN r[4] ELSE @]
+                ELSE IF st[2]
+                THEN \* stop(code) re-raises: the dispatch, the pass and the run loop are abandoned
+                     K' = [st[1] EXCEPT !.cur = [e |-> 0, r |-> 0, todo |-> {}, err |-> FALSE], !.flushing = 0,
+                                        !.ticking = 0, !.tickstage = "",
+                                        !.run.raised = TRUE, !.run.exit = r[4],
+                                        !.run.phase = IF @ = "off" THEN "off" ELSE "final", !.run.left = 1]
+                ELSE K' = st[1]
+          [] OTHER ->
+             LET K3 == Emit(K2, << [Line("ret") EXCEPT !.e = e, !.h = h, !.v = r[2]] >>)
              IN K' = IF r[2] # 0 THEN Inform([K3 EXCEPT !.ev[e].results = Append(@, r[2])], e) ELSE K3
 
 EndDispatch ==
   /\ K.cur.e # 0
-  /\ IF K.ev[K.cur.e].stopped THEN TRUE ELSE (K.cur.todo = {} /\ ~SysDetachDue)
+  /\ IF K.ev[K.cur.e].stopped THEN TRUE ELSE (K.cur.todo = {} /\ ~SysDetachDue /\ ~IsGE)
   /\ UNCHANGED hist
   /\ LET e  == K.cur.e
          r  == K.cur.r
@@ -393,7 +699,7 @@ SysDetach ==
 
 EndPass ==
   /\ K.flushing # 0 /\ K.cur.e = 0 /\ K.pq[K.flushing] = {}
-  /\ K' = [K EXCEPT !.flushing = 0]
+  /\ K' = [K EXCEPT !.flushing = 0, !.ticking = 0, !.tickstage = ""]
   /\ UNCHANGED hist
 
 Next ==
@@ -405,6 +711,12 @@ Next ==
   \/ /\ CanOp("addh") /\ \E h \in Range(G.dyn) : ExtAddH(h)
   \/ /\ CanOp("rmh") /\ \E h \in Range(G.dyn) : ExtRmH(h)
   \/ /\ CanOp("flush") /\ \E c \in Range(G.flushers) : ExtFlush(c)
+  \/ /\ CanOp("run") /\ \E c \in Range(G.flushers) : ExtRun(c)
+  \/ /\ CanOp("stop") /\ \E c \in Range(G.flushers) : ExtStop(c)
+  \/ /\ CanOp("tick") /\ \E c \in Range(G.flushers) : ExtTick(c)
+  \/ RunStep
+  \/ StepTask \/ TickFlush
+  \/ Fallback
   \/ StartQuiesce \/ QTick \/ QDone
   \/ BeginDispatch
   \/ \E h \in K.cur.todo : Invoke(h)
@@ -423,7 +735,9 @@ ConformsC01 == K.bad["C01"][1] = ""
 ConformsC02 == K.bad["C02"][1] = ""
 ConformsC04 == K.bad["C04"][1] = ""
 ConformsC05 == K.bad["C05"][1] = ""
+ConformsC06 == K.bad["C06"][1] = ""
 ConformsC07 == K.bad["C07"][1] = ""
+ConformsC08 == K.bad["C08"][1] = ""
 ConformsM   == K.bad["M"][1] = ""
 
 (* direct state invariants *)
@@ -434,11 +748,12 @@ CacheCoherent ==
         t[3] = { h \in K.live : RootK(K, G.H[h].comp) = r /\ Declared(G, h, t[1]) /\ Listens(G, h, t[2]) }
 EffectsNonNegative == \A e \in DOMAIN K.ev : K.ev[e].effects >= 0
 
-(* quiescent: nothing queued anywhere, no dispatch in progress *)
-Quiescent == Idle /\ \A c \in DOMAIN K.par : K.queue[c] = <<>>
+(* at the end of the driver's quiesce(): every dispatched, finished event that asked for
+   completion has got it *)
 CompleteDelivered ==
-  Quiescent => \A e \in DOMAIN K.ev :
-      ((K.ev[e].flags \div 4) % 2 = 1 /\ K.S.ev[e].st = 3) => K.S.ev[e].ncompl = 1
+  K.done => \A e \in DOMAIN K.ev :
+      ((K.ev[e].flags \div 4) % 2 = 1 /\ K.S.ev[e].st = 3 /\ K.S.ev[e].gens = 0) => K.S.ev[e].ncompl = 1
+NoTaskResidue == K.done => (K.tasks = {} /\ \A w \in DOMAIN K.gens : ~K.gens[w].armed)
 
 (* history generation: every completed history is printed once *)
 Compact(ln) == <<ln.k, ln.e, ln.h, ln.c, ln.n, ln.ch, ln.p, ln.o, ln.x, ln.y, ln.v, ln.f, ln.d>>
